@@ -254,7 +254,7 @@ pub fn check_stitched(
 ) -> Vec<Violation> {
     let mut v = Vec::new();
     let expect = ref_stitch(snap, band);
-    let (lo, listed) = run::do_list(dir, Sel::Band(band), "/", &[], None);
+    let (lo, listed) = run::do_list(dir, Sel::Band(band), "/", &[], run::NOHOOK);
     if lo.panicked.is_some() || !lo.is_ok() {
         v.push(Violation::new(
             format!("C03:listing-interrupted-band-fails:{site}"),
@@ -322,7 +322,7 @@ pub fn check_stitched(
     }
     *orphans_seen += orphans.len();
     let dest = scratch.fresh("rs4");
-    let ro = run::do_restore(dir, &dest, &RestoreArgs::band(band), None, Flavor::Current);
+    let ro = run::do_restore(dir, &dest, &RestoreArgs::band(band), run::NOHOOK, Flavor::Current);
     if ro.panicked.is_some() || !ro.is_ok() {
         v.push(Violation::new(
             format!("C03:restore-interrupted-band-fails:{site}"),
